@@ -56,6 +56,9 @@ open Vflow Vflow.Sflow
 def at? (b : Bytes) (i : Nat) : Res Nat :=
   if i < b.length then .ok (b.getD i 0).toNat else .panic
 
+/-- octet `i` of `b` as a number (0 when out of range; only used under a length guard) -/
+def oct (b : Bytes) (i : Nat) : Nat := (b.getD i 0).toNat
+
 /-- `b[i:j]` (checked against the length; under the Go guards length and capacity checks agree) -/
 def slice? (b : Bytes) (i j : Nat) : Res Bytes :=
   if i ≤ j ∧ j ≤ b.length then .ok ((b.drop i).take (j - i)) else .panic
